@@ -6,7 +6,7 @@ From Coq Require Import List NArith ZArith Bool Lia ZifyBool ZifyNat ZifyN.
 From Coq Require Decimal DecimalZ DecimalN DecimalPos.
 From Coq.Strings Require Import Byte.
 Import ListNotations.
-From BWValues Require Import Bytes BytesProofs Values Codec Uuid Io Dom CodecProofs UuidProofs RoundTrip.
+From BWValues Require Import Bytes BytesProofs Values Codec Uuid Io Dom CodecProofs UuidProofs TimeCodec TimeCodecProofs RoundTrip.
 
 (* ---- strconv.Quote on bytes: ASCII printable literal, Go's single-letter escapes, everything else \xHH
    (for non-ASCII input Go keeps valid printable runes literal; on ASCII input this IS Go's Quote) *)
@@ -240,7 +240,42 @@ Lemma model_library_accept_laws : accept_laws model_library.
 Proof.
   constructor.
   - apply quote_laws_g.
-  - intros s t H. apply time_ok_g. exact (parse_time_g_off s t H).
+  - intros s t H _. apply time_ok_g. exact (parse_time_g_off s t H).
+  - intros s b _. apply float_ok_g.
+Qed.
+
+(* ---- the Go-faithful time codec (TimeCodec.v, compared with time.Format / time.Parse by h_values -mode time):
+   the time laws are THEOREMS for it *)
+Lemma time_dom_ns_dom : forall t, time_dom t = true -> ns_dom t.
+Proof. intros t H. unfold time_dom in H. unfold ns_dom, zone_ok. lia. Qed.
+
+Lemma time_ok_rfc3339 : forall uq q pf ff t, ns_dom t ->
+  time_ok (mkOracles uq q parse_rfc3339nano fmt_rfc3339nano pf ff) t.
+Proof.
+  intros uq q pf ff t Hd. unfold time_ok. cbn [o_parse_time o_fmt_time]. repeat split.
+  - exact (parse_fmt_rfc3339nano t Hd).
+  - apply fmt_nonempty.
+  - apply forallb_forall. intros x Hx. apply memb_In. exact (fmt_alphabet t x Hx).
+  - exact (proj1 (proj2 Hd)).
+Qed.
+
+Definition go_time_library : oracles :=
+  mkOracles unquote_g quote_g parse_rfc3339nano fmt_rfc3339nano parse_float_g fmt_float_g.
+
+Lemma go_time_library_laws : oracle_laws go_time_library.
+Proof.
+  constructor.
+  - apply quote_laws_g.
+  - intros t Hd. apply time_ok_rfc3339. exact (time_dom_ns_dom t Hd).
+  - intros b _. apply float_ok_g.
+Qed.
+
+Lemma go_time_library_accept_laws : accept_laws go_time_library.
+Proof.
+  constructor.
+  - apply quote_laws_g.
+  - intros s t H Hp. apply time_ok_rfc3339. cbn [go_time_library o_parse_time] in H.
+    apply (parse_in_dom s t H). unfold off_printable in Hp. lia.
   - intros s b _. apply float_ok_g.
 Qed.
 
